@@ -122,3 +122,14 @@ package limit
 //@   call Every#0: assert arg_interval == time.Second / time.Duration(rate)
 //@   call NewLimiter#0: assert arg_b == burst
 //@   ensures result.rate == rate && result.burst == burst && result.store == store && result.redisAlive == 1
+
+// the limiter is built with exactly the period and quota it was given - no clamping, no defaults (a quota of 0 grants
+// nothing); options (assumed to touch nothing but the alignment flag, as the package's only option Align does) come after
+//@ func NewPeriodLimit
+//@   property C03
+//@   flag nopanic:opt
+//@   call opt#0: modifies limiter.align
+//@   call opt#*: assert arg0 == limiter
+//@   loop 0: invariant limiter != nil && limiter.period == period && limiter.quota == quota && limiter.limitStore == limitStore && limiter.keyPrefix == keyPrefix
+//@   ensures result != nil && result.period == period && result.quota == quota && result.limitStore == limitStore && result.keyPrefix == keyPrefix
+//@   allocates
